@@ -167,6 +167,7 @@ func runC11(sc c11Scn) (c vfCase) {
 	pushed := map[int]bool{}
 	hostile := false
 	delivered := map[int]int{}
+	fwdOrdered := map[int]bool{}
 	purged, partialPurged, shortRead := false, false, false
 	freshTSN := tsn + 1000
 	check := func(step int, op c11Op) {
@@ -247,6 +248,7 @@ func runC11(sc c11Scn) (c vfCase) {
 				continue
 			}
 			_, held, _ := c11Walk(rq)
+			fwdOrdered[op.A] = true
 			if sc.IL {
 				rq.forwardTSNForOrderedMID(msgSeq[op.A])
 			} else {
@@ -276,11 +278,55 @@ func runC11(sc c11Scn) (c vfCase) {
 	}
 	// drain everything readable; what remains must be exactly what the counter says
 	for i := 0; i < len(sc.Msgs)+8 && c.Verdict == ""; i++ {
-		if _, _, err := rq.read(buf); err != nil {
+		n, _, err := rq.read(buf)
+		if err != nil {
 			break
+		}
+		for mi := range msgBytes {
+			if bytes.Equal(msgBytes[mi], buf[:n]) {
+				delivered[mi]++
+				break
+			}
 		}
 	}
 	check(len(sc.Ops), c11Op{K: -1})
+	// liveness of ordered delivery: beyond the last skipped ordered message, every message all
+	// of whose fragments (and all of whose predecessors' fragments) were pushed is delivered
+	// exactly once - a skip never moves the stream backwards and never discards what it does
+	// not cover
+	if !hostile && sc.MaxEnt == 0 && c.Verdict == "" {
+		var ordered []int // message indices of ordered messages, in sequence order
+		for mi, m := range sc.Msgs {
+			if !m.Unord {
+				ordered = append(ordered, mi)
+			}
+		}
+		start := 0
+		for j, mi := range ordered {
+			if fwdOrdered[mi] {
+				start = j + 1
+			}
+		}
+		for j := start; j < len(ordered); j++ {
+			mi := ordered[j]
+			full := true
+			for ci, mt := range metas {
+				if mt.msg == mi && !pushed[ci] {
+					full = false
+				}
+			}
+			if !full {
+				break
+			}
+			if delivered[mi] != 1 {
+				c.fail("ordered-message-not-delivered", "ordered message %d (seq %d, %d fragments, all pushed; every skip was at or before message index %d) was delivered %d times", mi, msgSeq[mi], sc.Msgs[mi].Frags, start-1, delivered[mi])
+				break
+			}
+		}
+		if start > 0 && start < len(ordered) {
+			c.class("ordered-data-after-skip")
+		}
+	}
 	if purged {
 		c.class("purge")
 	}
